@@ -574,17 +574,23 @@ class Evaluator:
         env = {}
         for p, a in zip(tb.params, args):
             self.bind(p.get("pat"), a, env)
+        self._fn_depth = getattr(self, "_fn_depth", 0) + 1
         try:
-            return self.eval(tb, tb.root, dict(env), depth)
-        except Unsupported as e:
-            if "early return nested" not in str(e):
-                raise
-        # control flow with returns nested inside branches: followed along the branches whose condition is decided
-        # (the usual situation when the function is evaluated for one concrete combination of its inputs)
-        try:
-            return self._run(tb, tb.root, env, depth)
-        except _Return as r:
-            return r.value
+            try:
+                return self.eval(tb, tb.root, dict(env), depth)
+            except _Return as r:
+                return r.value
+            except Unsupported as e:
+                if "early return nested" not in str(e):
+                    raise
+            # control flow with returns nested inside branches: followed along the branches whose condition is decided
+            # (the usual situation when the function is evaluated for one concrete combination of its inputs)
+            try:
+                return self._run(tb, tb.root, env, depth)
+            except _Return as r:
+                return r.value
+        finally:
+            self._fn_depth -= 1
 
     def _has_return(self, tb, i):
         return any(n["k"] == "Return" and not self._noise(n) for _, n in tb.walk(i))
@@ -909,6 +915,18 @@ class Evaluator:
             k += 1
             if st["k"] == "let":
                 if st.get("init") is not None:
+                    ii, inn = tb.e(st["init"])
+                    if inn["k"] == "Match":
+                        # `let x = expr?;` — a decided failure leaves the function here, a decided success binds the payload
+                        si, sn = tb.e(inn["scrut"])
+                        fn_ = (sn.get("res") or sn.get("fn") or "") if sn["k"] == "Call" else ""
+                        if fn_.endswith("Try>::branch") or fn_.endswith("Try::branch"):
+                            v = self.eval(tb, sn["args"][0], env, depth)
+                            if isinstance(v, Agg) and v.var in ("Err", "None"):
+                                return v
+                            if isinstance(v, Agg) and v.var in ("Ok", "Some"):
+                                self.bind(st["pat"], v.fields.get("0"), env)
+                                continue
                     v = self.eval(tb, st["init"], env, depth)
                     self.bind(st["pat"], v, env)
                 continue
@@ -1203,6 +1221,17 @@ class Evaluator:
         return Cond("sym", "pat:%s(%s)" % (k, vkey(v))), binds
 
     def eval_match(self, tb, n, env, depth):
+        si_, sn_ = tb.e(n["scrut"])
+        if sn_["k"] == "Call" and getattr(self, "_fn_depth", 0) > 0:
+            fq_ = sn_.get("res") or sn_.get("fn") or ""
+            if fq_.endswith("Try>::branch") or fq_.endswith("Try::branch"):
+                # `expr?` anywhere inside an expression of a function evaluated by call_fn: a decided failure leaves
+                # the function with the residual, a decided success yields the payload
+                tv = self.eval(tb, sn_["args"][0], env, depth)
+                if isinstance(tv, Agg) and tv.var in ("Err", "None"):
+                    raise _Return(tv)
+                if isinstance(tv, Agg) and tv.var in ("Ok", "Some"):
+                    return tv.fields.get("0")
         v = self.eval(tb, n["scrut"], env, depth)
         arms = []
         for a in n["arms"]:
@@ -1647,7 +1676,10 @@ class Evaluator:
         # params[0] is the closure environment
         for p, a in zip(tb.params[1:], args):
             self.bind(p.get("pat"), a, env)
-        return self.eval(tb, tb.root, env, depth)
+        try:
+            return self.eval(tb, tb.root, env, depth)
+        except _Return as r:
+            return r.value      # a decided `?` inside the closure leaves the closure
 
     # --- condition collection over a whole body (validators)
     _seen_code_spans = None
